@@ -534,6 +534,11 @@ fn build_provs(provs: &[Vec<(S, Vec<S>)>]) -> Vec<JarSuperProv> {
 fn flat_inh(provs: &[JarSuperProv]) -> Vec<(S, Vec<S>)> {
 	provs.iter().flat_map(|p| p.super_classes.iter().map(|(c, ss)| (cps(c.as_inner()), ss.iter().map(|x| cps(x.as_inner())).collect()))).collect()
 }
+/// the entry lists per provider, as each IndexMap / IndexSet iterates
+fn prov_lists(provs: &[JarSuperProv]) -> Vec<Vec<(S, Vec<S>)>> {
+	provs.iter().map(|p| p.super_classes.iter().map(|(c, ss)| (cps(c.as_inner()), ss.iter().map(|x| cps(x.as_inner())).collect())).collect()).collect()
+}
+fn g_provs(ps: &[Vec<(S, Vec<S>)>]) -> String { glist(ps.iter().map(|p| g_inh(p))) }
 fn g_inh(inh: &[(S, Vec<S>)]) -> String { glist(inh.iter().map(|(c, ss)| gpair(gstr(c), glist(ss.iter().map(|x| gstr(x)))))) }
 
 fn replay_text(w: &World, inh: &[(S, Vec<S>)], what: &str) -> String {
@@ -614,7 +619,7 @@ fn run_world<const N: usize>(r: &mut Report, w: &World) -> anyhow::Result<()> {
 			// remapper_b may only fail when some descriptor of a row is outside the grammar
 			let all_ok = w.m.classes.iter().all(|c| c.fields.iter().all(|f| o_field(&f.desc).is_some()) && c.methods.iter().all(|me| o_method(&me.desc).is_some()));
 			if all_ok { r.violation("remapper_b returned Err although every descriptor of the mappings is a valid descriptor".into(), replay_text(w, &inh, "remapper_b returned Err")); }
-			r.case(stream, format!("CB {} {} {} {} {} {qa} false []", gbool(hyp), g_mappings(&w.m), w.from, w.to, g_inh(&inh)));
+			r.case(stream, format!("CB {} {} {} {} {} {qa} false [] [] []", gbool(hyp), g_mappings(&w.m), w.from, w.to, g_provs(&prov_lists(&provs))));
 			return Ok(());
 		}
 		Ok(Ok(rb)) => rb,
@@ -654,10 +659,9 @@ fn run_world<const N: usize>(r: &mut Report, w: &World) -> anyhow::Result<()> {
 	}
 	r.eval(&canon, hits > 0);
 	r.count(&format!("queries_per_world_{}", (w.queries.len() / 10) * 10));
-	r.case(stream, format!("CB {} {} {} {} {} {qa} true {}", gbool(hyp), g_mappings(&w.m), w.from, w.to, g_inh(&inh), glist(out)));
-
 	// ---- X -> Y -> X on the implementation ----
-	roundtrip::<N>(r, w, &qm, &rb, &provs, &inh);
+	let (psy, rts) = roundtrip::<N>(r, w, &qm, &rb, &provs, &inh);
+	r.case(stream, format!("CB {} {} {} {} {} {qa} true {} {psy} {rts}", gbool(hyp), g_mappings(&w.m), w.from, w.to, g_provs(&prov_lists(&provs)), glist(out)));
 	Ok(())
 }
 
@@ -677,11 +681,13 @@ fn judge(r: &mut Report, w: &World, inh: &[(S, Vec<S>)], rf: &Ref, q: &Q, a: &An
 /// known-finding classifier (none recorded: F5 was repaired by a fix: commit)
 fn classify_known(_rf: &Ref, _q: &Q, _a: &Ans) -> Option<String> { None }
 
-fn roundtrip<const N: usize>(r: &mut Report, w: &World, qm: &Mappings<N, NsAny>, rb: &impl BRemapper, provs: &Vec<JarSuperProv>, inh: &[(S, Vec<S>)]) {
+/// returns the Gallina text of the remapped providers and of the inherited round-trip queries
+fn roundtrip<const N: usize>(r: &mut Report, w: &World, qm: &Mappings<N, NsAny>, rb: &impl BRemapper, provs: &Vec<JarSuperProv>, inh: &[(S, Vec<S>)]) -> (String, String) {
+	let none = ("[]".to_string(), "[]".to_string());
 	let (x, y) = (w.from, w.to);
-	let Ok(Ok(provs_y)) = guarded(AssertUnwindSafe(|| JarSuperProv::remap(rb, provs))) else { r.violation("JarSuperProv::remap failed".into(), replay_text(w, inh, "JarSuperProv::remap failed")); return; };
-	let (Ok(nx), Ok(ny)) = (Namespace::<N>::new(x), Namespace::<N>::new(y)) else { return };
-	let back = match guarded(AssertUnwindSafe(|| qm.remapper_b(ny, nx, &provs_y))) { Ok(Ok(b)) => b, _ => { r.violation("remapper_b(to, from) failed although remapper_b(from, to) succeeded".into(), replay_text(w, inh, "remapper_b(to, from) failed")); return; } };
+	let Ok(Ok(provs_y)) = guarded(AssertUnwindSafe(|| JarSuperProv::remap(rb, provs))) else { r.violation("JarSuperProv::remap failed".into(), replay_text(w, inh, "JarSuperProv::remap failed")); return none; };
+	let (Ok(nx), Ok(ny)) = (Namespace::<N>::new(x), Namespace::<N>::new(y)) else { return none };
+	let back = match guarded(AssertUnwindSafe(|| qm.remapper_b(ny, nx, &provs_y))) { Ok(Ok(b)) => b, _ => { r.violation("remapper_b(to, from) failed although remapper_b(from, to) succeeded".into(), replay_text(w, inh, "remapper_b(to, from) failed")); return none; } };
 	let both: Vec<&MClass> = w.m.classes.iter().filter(|c| c.names[x].is_some() && c.names[y].is_some()).collect();
 	let count = |ns: usize, n: &S| both.iter().filter(|c| c.names[ns].as_ref() == Some(n)).count();
 	// a class name the mappings name injectively, or that they do not touch at all
@@ -748,7 +754,133 @@ fn roundtrip<const N: usize>(r: &mut Report, w: &World, qm: &Mappings<N, NsAny>,
 			}
 		}
 	}
+	// ---- members reached through inheritance (and fall-back keys), for every owner of the queries ----
+	// a class map that is not injective can make the remapped provider cyclic (A -> X, B -> X, A extends B):
+	// the search then recurses without bound (outside the acyclicity hypothesis, see cycle_probe)
+	let inh_y = flat_inh(&provs_y);
+	if !acyclic(&inh_y) { r.count("rt_skipped_remapped_provider_cyclic"); return none; }
+	let rt = RtRef { rf: Ref { m: &w.m, from: x, to: y, inh }, both: both.clone() };
+	let world_ok = rt.world_ok();
+	if world_ok { r.count("rt_world_inside_hypotheses"); } else { r.count("rt_world_outside_hypotheses"); }
+	let mut seen: Vec<(bool, S, Key)> = vec![];
+	let mut rts: Vec<String> = vec![];
+	for q in &w.queries {
+		let (method, o, k) = match q {
+			Q::Field(o, k) | Q::FieldFail(o, k) | Q::FieldRef(o, k) => (false, o, k),
+			Q::Method(o, k) | Q::MethodFail(o, k) | Q::MethodRefObj(o, k) => (true, o, k),
+			_ => continue,
+		};
+		if seen.contains(&(method, o.clone(), k.clone())) || seen.len() >= 24 { continue; }
+		seen.push((method, o.clone(), k.clone()));
+		let q1 = if method { Q::MethodRefObj(o.clone(), k.clone()) } else { Q::FieldRef(o.clone(), k.clone()) };
+		let Ok(Ans::RKey3(a1)) = eval_b(rb, &q1) else { continue };
+		let a2 = match &a1 {
+			None => None,
+			Some((cy, k2)) => {
+				let q2 = if method { Q::MethodRefObj(cy.clone(), k2.clone()) } else { Q::FieldRef(cy.clone(), k2.clone()) };
+				match eval_b(&back, &q2) { Ok(Ans::RKey3(b)) => b, _ => { r.violation(format!("round trip: {} panicked on the way back", show_q(&q2)), replay_text(w, inh, "panic on the way back")); continue; } }
+			}
+		};
+		let inside = world_ok && rt.owner_ok(method, o) && rt.query_ok(method, o, k);
+		let returned = a2 == Some((o.clone(), k.clone()));
+		let kind = rt.kind(method, o, k);
+		if inside {
+			r.count(&format!("rt_inside:{kind}"));
+			if !returned {
+				let what = format!("inherited round trip inside the hypotheses: {} = {:?}, and back {:?}", show_q(&q1), a1.as_ref().map(|(c, k)| format!("{}.{}", show(c), show_key(k))), a2.as_ref().map(|(c, k)| format!("{}.{}", show(c), show_key(k))));
+				r.violation(what.clone(), replay_text(w, inh, &what));
+			}
+		} else {
+			r.count(&format!("rt_outside:{}", if returned { "returned anyway" } else if a1.is_none() { "forward Err" } else { "did not return" }));
+		}
+		let g3 = |a: &Option<(S, Key)>| gres(a.as_ref().map(|(c, k)| gpair(gstr(c), g_key(k))));
+		rts.push(format!("RT {} {} {} {} {} {}", gbool(method), gbool(inside), gstr(o), g_key(k), g3(&a1), g3(&a2)));
+	}
+	(g_provs(&prov_lists(&provs_y)), glist(rts))
 }
+
+/// first-match provider lists: no class reaches itself
+fn acyclic(inh: &[(S, Vec<S>)]) -> bool {
+	fn visit(inh: &[(S, Vec<S>)], c: &S, path: &mut Vec<S>, done: &mut Vec<S>) -> bool {
+		if done.contains(c) { return true; }
+		if path.contains(c) { return false; }
+		path.push(c.clone());
+		if let Some((_, ss)) = inh.iter().find(|(k, _)| k == c) { for x in ss { if !visit(inh, x, path, done) { return false; } } }
+		path.pop();
+		done.push(c.clone());
+		true
+	}
+	let mut done = vec![];
+	inh.iter().all(|(c, _)| visit(inh, c, &mut vec![], &mut done))
+}
+
+/// the decidable hypotheses of the inherited round trip (coq/C06/Theory4.v: rt_world, rt_owner,
+/// field_query_ok / method_query_ok), evaluated on the mapping rows and the provider.  Nothing here calls quill.
+struct RtRef<'a> { rf: Ref<'a>, both: Vec<&'a MClass> }
+impl<'a> RtRef<'a> {
+	fn keys(&self) -> Vec<&S> { self.both.iter().map(|c| c.names[self.rf.from].as_ref().unwrap()).collect() }
+	fn targets(&self) -> Vec<&S> { self.both.iter().map(|c| c.names[self.rf.to].as_ref().unwrap()).collect() }
+	/// mapped, or not some class's target name
+	fn closed(&self, c: &S) -> bool { self.keys().contains(&c) || !self.targets().contains(&c) }
+	fn world_ok(&self) -> bool {
+		let (ks, ts) = (self.keys(), self.targets());
+		let distinct = |v: &Vec<&S>| v.iter().enumerate().all(|(i, a)| v[..i].iter().all(|b| a != b));
+		// (source names distinct is more than the theorem asks: the reference lookup is only defined then)
+		// tables_inj (swap_b R): inside every class the target keys of the fields / of the methods are pairwise distinct
+		let members_inj = |method: bool| ks.iter().all(|c| match self.table(method, c) {
+			Some(t) => t.iter().enumerate().all(|(i, (_, a))| t[..i].iter().all(|(_, b)| a != b)),
+			None => false,
+		});
+		distinct(&ks) && distinct(&ts) && ts.iter().all(|t| o_class_name(t)) && members_inj(false) && members_inj(true)
+			&& self.rf.inh.iter().all(|(c, ss)| self.closed(c) && ss.iter().all(|x| self.closed(x)))
+	}
+	/// the entries of the class row named `c` in `from` (None: a descriptor of the row cannot be re-expressed)
+	fn table(&self, method: bool, c: &S) -> Option<Vec<(Key, Key)>> {
+		let mut v = vec![];
+		for row in self.both.iter().filter(|r| r.names[self.rf.from].as_ref() == Some(c)) {
+			let members: Vec<(&S, &NamesRow)> = if method { row.methods.iter().map(|m| (&m.desc, &m.names)).collect() } else { row.fields.iter().map(|f| (&f.desc, &f.names)).collect() };
+			for (d0, names) in members {
+				let (Some(nf), Some(nt)) = (&names[self.rf.from], &names[self.rf.to]) else { continue };
+				let df = self.rf.desc(0, self.rf.from, d0)??; let dt = self.rf.desc(0, self.rf.to, d0)??;
+				v.push(((nf.clone(), df), (nt.clone(), dt)));
+			}
+		}
+		Some(v)
+	}
+	fn visible(&self, method: bool, o: &S) -> Option<Vec<(Key, Key)>> {
+		let mut v = vec![];
+		for x in self.rf.preorder(o) { v.extend(self.table(method, &x)?); }
+		Some(v)
+	}
+	fn owner_ok(&self, method: bool, o: &S) -> bool {
+		if !self.closed(o) { return false; }
+		let Some(v) = self.visible(method, o) else { return false };
+		v.iter().all(|(k1, t1)| v.iter().all(|(k2, t2)| t1 != t2 || k1 == k2))
+	}
+	fn found(&self, method: bool, o: &S, k: &Key) -> Option<usize> {
+		self.rf.preorder(o).iter().position(|x| self.table(method, x).map(|t| t.iter().any(|(a, _)| a == k)).unwrap_or(false))
+	}
+	fn query_ok(&self, method: bool, o: &S, k: &Key) -> bool {
+		if self.found(method, o, k).is_some() { return true; }
+		let in_grammar = if method { o_method(&k.1).is_some() } else { o_field(&k.1).is_some() };
+		if !in_grammar { return false; }
+		let Some(names) = ref_desc_names(&k.1) else { return false };
+		if !names.iter().all(|n| self.closed(n)) { return false; }
+		let Some(Some(d)) = self.rf.desc(self.rf.from, self.rf.to, &k.1) else { return false };
+		let fb = (k.0.clone(), d);
+		match self.visible(method, o) { Some(v) => !v.iter().any(|(_, t)| *t == fb), None => false }
+	}
+	fn kind(&self, method: bool, o: &S, k: &Key) -> &'static str {
+		let has_entry = self.keys().contains(&o);
+		match self.found(method, o, k) {
+			Some(0) => "declared by the owner",
+			Some(_) if has_entry => "inherited, owner has an entry",
+			Some(_) => "inherited, owner without entry",
+			None => "fall-back (declared nowhere)",
+		}
+	}
+}
+
 
 fn run_any(r: &mut Report, w: &World) -> anyhow::Result<()> {
 	match w.m.ns.len() { 2 => run_world::<2>(r, w), 3 => run_world::<3>(r, w), _ => run_world::<4>(r, w) }
